@@ -42,12 +42,34 @@ theorem C17_sort_col_with (v : VW) (buf : List α) (h : v.Inv buf.length) (a : A
       a.sortColWith col swapRows buf lim side c = .error e) ∧
     (c < v.numCols → v.numRows ≤ lim → ∀ p, side (v.colKeys buf c) = .ok p → p.Perm (List.range v.numRows) →
       a.sortColWith col swapRows buf lim side c = .ok (gather buf (v.mapCells (sortRowsG p)))) := by
-  sorry
+  have hk : ∀ (it : Col), it.abs v.numRows = (List.range v.numRows).map (fun r => v.pos c r) →
+      (it.abs v.numRows).filterMap (fun p => buf[p]?) = v.colKeys buf c := by
+    intro it habs
+    rw [habs, List.filterMap_map]; rfl
+  have hl : c < v.numCols → (v.colKeys buf c).length = v.numRows := fun hc => col_keys_length v buf h hc
+  refine ⟨fun hc => ?_, fun hc hlim => ?_, fun hc hlim e he => ?_, fun hc hlim p hs hp => ?_⟩
+  · simp only [Acc.sortColWith, ha.cols, hc, not_false_eq_true, if_true, throw_eq, err_bind]
+  · obtain ⟨it, e, hwf, habs⟩ := hcol c hc
+    have hd : sideAllocOk lim v.numRows = false := by
+      simp only [sideAllocOk, decide_eq_false_iff_not]; exact hlim
+    simp only [Acc.sortColWith, ha.cols, hc, not_true_eq_false, if_false, ok_bind, e, sort_collect_col hwf, hk it habs,
+      hl hc, hd, Bool.not_false, if_true, throw_eq, err_bind]
+  · obtain ⟨it, e', hwf, habs⟩ := hcol c hc
+    have hd : sideAllocOk lim v.numRows = true := by
+      simp only [sideAllocOk, decide_eq_true_eq]; exact hlim
+    simp only [Acc.sortColWith, ha.cols, hc, not_true_eq_false, if_false, ok_bind, e', sort_collect_col hwf, hk it habs,
+      hl hc, hd, Bool.not_true, Bool.false_eq_true, he, err_bind]
+  · obtain ⟨it, e', hwf, habs⟩ := hcol c hc
+    have hd : sideAllocOk lim v.numRows = true := by
+      simp only [sideAllocOk, decide_eq_true_eq]; exact hlim
+    simp only [Acc.sortColWith, ha.cols, hc, not_true_eq_false, if_false, ok_bind, e', sort_collect_col hwf, hk it habs,
+      hl hc, hd, Bool.not_true, Bool.false_eq_true, hs]
+    exact C17_apply_row_perm v buf h swapRows hsw p hp
 
 /-- the key column of a view has `num_rows` cells -/
 theorem C17_key_col_length (v : VW) (buf : List α) (h : v.Inv buf.length) (c : Nat) (hc : c < v.numCols) :
     (v.colKeys buf c).length = v.numRows := by
-  sorry
+  exact col_keys_length v buf h hc
 
 /-- `sort_by_col(col, compare)` -/
 theorem C17_sort_by_col (v : VW) (buf : List α) (h : v.Inv buf.length) (a : Acc) (ha : a.Of v buf.length)
@@ -61,7 +83,11 @@ theorem C17_sort_by_col (v : VW) (buf : List α) (h : v.Inv buf.length) (a : Acc
         .ok (gather buf (v.mapCells (sortRowsG (stablePerm le
           ((List.range v.numRows).filterMap fun r => buf[v.pos c r]?)))))) ∧
     (¬ c < v.numCols → a.sortByCol col swapRows buf lim le c = .error .panic) := by
-  sorry
+  obtain ⟨h1, _, _, h4⟩ := C17_sort_col_with v buf h a ha col hcol swapRows hsw lim (sideStable le) c
+  refine ⟨fun hc => ?_, fun hc => h1 hc⟩
+  have hp := stablePerm_perm le (v.colKeys buf c)
+  rw [C17_key_col_length v buf h c hc] at hp
+  exact h4 hc hlim _ rfl hp
 
 /-- `sort_unstable_by_col(col, compare)`: for every permutation the side sort may return -/
 theorem C17_sort_unstable_by_col (v : VW) (buf : List α) (h : v.Inv buf.length) (a : Acc) (ha : a.Of v buf.length)
@@ -72,7 +98,8 @@ theorem C17_sort_unstable_by_col (v : VW) (buf : List α) (h : v.Inv buf.length)
     (lim : Nat) (hlim : v.numRows ≤ lim) (p : List Nat) (hp : p.Perm (List.range v.numRows)) (c : Nat) :
     (c < v.numCols → a.sortUnstableByCol col swapRows buf lim p c = .ok (gather buf (v.mapCells (sortRowsG p)))) ∧
     (¬ c < v.numCols → a.sortUnstableByCol col swapRows buf lim p c = .error .panic) := by
-  sorry
+  obtain ⟨h1, _, _, h4⟩ := C17_sort_col_with v buf h a ha col hcol swapRows hsw lim (sideGiven p) c
+  exact ⟨fun hc => h4 hc hlim p rfl hp, fun hc => h1 hc⟩
 
 /-- the key and natural-order variants are the comparator variants with the derived comparator (src/sort.rs:168-170, 216-233) -/
 theorem C17_variants_delegate {κ : Type} (a : Acc) (col : Nat → Res Col) (swapRows : List α → Nat → Nat → Res (List α))
@@ -86,15 +113,26 @@ theorem C17_variants_delegate {κ : Type} (a : Acc) (col : Nat → Res Col) (swa
     trait default (what a third-party implementor gets) -/
 theorem C17_swap_rows_spec_owned (m : Mode) (t : TD α) (h : t.Inv) :
     SwapRowsSpec t.asView t.data.length (fun b r1 r2 => ({ t with data := b } : TD α).swapRows m r1 r2) := by
-  sorry
+  intro b r1 r2 hb hr1 hr2
+  have hrw : t.asView.numRows < WORD := (TD.asView_inv t h).1.rows_word
+  have h' : ({ t with data := b } : TD α).Inv := ⟨by rw [← h.len]; exact hb, h.zero, by
+    show b.length < WORD
+    rw [hb]; exact h.word⟩
+  exact (C13_swap_rows_owned m ({ t with data := b } : TD α) h' r1 r2 ⟨by omega, by omega⟩).1 ⟨hr1, hr2⟩
 
 theorem C17_swap_rows_spec_view (m : Mode) (v : VW) (n : Nat) (h : v.Inv n) :
     SwapRowsSpec (α := α) v n (fun b r1 r2 => v.swapRows m b r1 r2) := by
-  sorry
+  intro b r1 r2 hb hr1 hr2
+  have hrw := h.rows_word
+  subst hb
+  exact (C13_swap_rows_view m v b h r1 r2 ⟨by omega, by omega⟩).1 ⟨hr1, hr2⟩
 
 theorem C17_swap_rows_spec_default (m : Mode) (v : VW) (n : Nat) (h : v.Inv n) (a : Acc) (ha : a.Of v n) :
     SwapRowsSpec (α := α) v n (fun b r1 r2 => a.swapRows m b r1 r2) := by
-  sorry
+  intro b r1 r2 hb hr1 hr2
+  have hrw := h.rows_word
+  subst hb
+  exact (C13_swap_rows_default m v b h a ha r1 r2 ⟨by omega, by omega⟩).1 ⟨hr1, hr2⟩
 
 /-- a row permutation is a bijection of the cells: every row of the result is one original row, each once -/
 theorem C17_rows_bijective (C R : Nat) (p : List Nat) (hp : p.Perm (List.range R)) :
@@ -173,7 +211,31 @@ theorem C17_sort_by_col_ordered (v : VW) (buf : List α) (h : v.Inv buf.length) 
       (v.colKeys buf' c).Pairwise (fun x y => le x y = true) ∧
       (∀ i j, i < j → j < v.numRows → ∀ x y, buf[v.pos c (p.getD i 0)]? = some x → buf[v.pos c (p.getD j 0)]? = some y →
         le y x = true → p.getD i 0 < p.getD j 0) := by
-  sorry
+  have hl := C17_key_col_length v buf h c hc
+  obtain ⟨hperm, hsorted, hstab⟩ := C16_stable_perm le htrans htotal (v.colKeys buf c)
+  have hperm' : (stablePerm le (v.colKeys buf c)).Perm (List.range v.numRows) := by
+    rw [hl] at hperm; exact hperm
+  have hplen : (stablePerm le (v.colKeys buf c)).length = v.numRows := by
+    rw [hperm'.length_eq, List.length_range]
+  have hfacts := perm_range_facts (stablePerm le (v.colKeys buf c)) (by rw [hplen]; exact hperm')
+  have hkeysome : ∀ x ∈ List.range v.numRows, (buf[v.pos c x]?).isSome := by
+    intro x hx
+    rw [List.getElem?_eq_getElem (VW.pos_lt h hc (List.mem_range.1 hx))]
+    rfl
+  have hkey : ∀ k, k < v.numRows → (v.colKeys buf c)[k]? = buf[v.pos c k]? := by
+    intro k hk
+    show ((List.range v.numRows).filterMap fun r => buf[v.pos c r]?)[k]? = _
+    rw [filterMap_getElem?_of_isSome _ _ hkeysome, List.getElem?_range hk, Option.bind_some]
+  have hpk : ∀ k, k < v.numRows → (stablePerm le (v.colKeys buf c)).getD k 0 < v.numRows := by
+    intro k hk
+    have := hfacts.1 k (by omega); omega
+  refine ⟨stablePerm le (v.colKeys buf c), _,
+    (C17_sort_by_col v buf h a ha col hcol swapRows hsw lim hlim le c).1 hc, hperm', rfl,
+    (C17_result_col_sorted v buf h _ hperm' c hc le hsorted).1, ?_⟩
+  intro i j hij hj x y hx hy hyx
+  rw [← hkey _ (hpk i (by omega))] at hx
+  rw [← hkey _ (hpk j hj)] at hy
+  exact hstab i j hij (by omega) x y hx hy hyx
 
 /-- the same for the key-function variant -/
 theorem C17_sort_by_col_key_ordered {κ : Type} (v : VW) (buf : List α) (h : v.Inv buf.length) (a : Acc) (ha : a.Of v buf.length)
@@ -187,6 +249,8 @@ theorem C17_sort_by_col_key_ordered {κ : Type} (v : VW) (buf : List α) (h : v.
     ∃ p buf', a.sortByColKey col swapRows buf lim key leK c = .ok buf' ∧ p.Perm (List.range v.numRows) ∧
       buf' = gather buf (v.mapCells (sortRowsG p)) ∧
       (v.colKeys buf' c).Pairwise (fun x y => leK (key x) (key y) = true) := by
-  sorry
+  obtain ⟨p, buf', e, hp, hb, hs, _⟩ := C17_sort_by_col_ordered v buf h a ha col hcol swapRows hsw lim hlim
+    (fun x y => leK (key x) (key y)) (fun a b c => htrans (key a) (key b) (key c)) (fun a b => htotal (key a) (key b)) c hc
+  exact ⟨p, buf', e, hp, hb, hs⟩
 
 end Toodee
